@@ -87,6 +87,75 @@ def mutate_case(rep, r: dict) -> None:
             return
 
 
+def extreme_case(rep, r: dict) -> None:
+    """(a) strongly correlated planes (|alpha| up to 1e4: a beam far from its waist): from_twiss reports the parameters
+    back, beta*gamma - alpha^2 = 1, and a drift transports them by the matrix law; (b) float32 beams far off axis
+    compared with their size: the statistics are those of the same coordinates in float64, to float32 round-off"""
+    import numpy as np
+    import torch
+    import cheetah
+    if r["what"] == "alpha":
+        t = lambda v: torch.tensor(v, dtype=torch.float64)  # noqa: E731
+        a, bta, em = r["alpha"], r["beta"], r["emit"]
+        b = cheetah.ParameterBeam.from_twiss(beta_x=t(bta), alpha_x=t(a), emittance_x=t(em), beta_y=t(2.0), alpha_y=t(0.0), emittance_y=t(1e-9),
+                                             energy=t(r["energy"]), dtype=torch.float64)
+        L = r["L"]
+        out = cheetah.Drift(length=t(L), dtype=torch.float64).track(b)
+        g = (1 + a * a) / bta
+        want = {"in": (bta, a, em), "drift": (bta - 2 * L * a + L * L * g, a - L * g, em)}
+        for tag, bb in (("in", b), ("drift", out)):
+            wb, wa, we = want[tag]
+            if abs(wa) > 3e4:
+                continue        # sigma_x^2 sigma_px^2 - sigma_xpx^2 cancels to 1/(1+alpha^2) < 1e-9: beyond float64
+            gb, ga, ge = float(bb.beta_x), float(bb.alpha_x), float(bb.emittance_x)
+            tol = 1e-9 + 1e-12 * (1 + wa * wa)
+            if not (abs(gb / wb - 1) <= tol and abs(ga - wa) <= tol * max(1.0, abs(wa)) and abs(ge / we - 1) <= tol):
+                rep.fail("falsifier", f"C17|ParameterBeam|{'|alpha|>=1000' if abs(a) >= 1000 else '|alpha|<1000'}|{'from_twiss' if tag == 'in' else 'drift'}",
+                         f"from_twiss(beta={bta!r}, alpha={a!r}, emittance={em!r})" + ("" if tag == "in" else f" after a {L} m drift")
+                         + f": reports beta {gb!r}, alpha {ga!r}, emittance {ge!r}; expected {wb!r}, {wa!r}, {we!r}", r)
+                return
+        return
+    P = np.array(r["particles"], dtype=np.float32)
+    b = cheetah.ParticleBeam(torch.tensor(P), torch.tensor(np.float32(r["energy"])), dtype=torch.float32)
+    P64 = P.astype(np.float64)
+    for k, nm in ((0, "sigma_x"), (1, "sigma_px"), (2, "sigma_y")):
+        w = float(np.std(P64[:, k], ddof=1))
+        g = float(getattr(b, nm))
+        ratio = abs(float(np.mean(P64[:, k]))) / max(w, 1e-300)
+        # two-pass float32 statistics lose about eps32 * (offset / size) of relative accuracy
+        tol = 1e-3 + 50 * 1.2e-7 * ratio
+        if not abs(g / w - 1) <= tol:
+            rep.fail("falsifier", f"C17|ParticleBeam(float32)|offset/size {'>=500' if ratio >= 500 else '<500'}|{nm}",
+                     f"float32 beam centred {ratio:.0f} sizes off axis: {nm} = {g!r}, the same coordinates in float64 give {w!r}", r)
+            return
+
+
+def extreme_probe(ctx, n: int) -> None:
+    import numpy as np
+    import elements as E
+    rep, rng = ctx.report, ctx.rng
+    for i in range(n):
+        if i % 2 == 0:
+            r = {"kind": "twiss_extreme", "what": "alpha", "alpha": float(E.pick(rng, 40.0, -900.0, 2500.0, -4000.0, 1500.0)),
+                 "beta": float(10.0 ** rng.uniform(-1, 3)), "emit": float(10.0 ** rng.uniform(-11, -7)), "L": float(E.pick(rng, 0.5, 2.0)),
+                 "energy": float(E.energy(rng))}
+        else:
+            n_p = 2000
+            size = np.array([10.0 ** rng.uniform(-6, -4), 10.0 ** rng.uniform(-6, -4), 10.0 ** rng.uniform(-6, -4)])
+            ratio = float(E.pick(rng, 0.0, 30.0, 800.0, 3000.0))
+            P = np.zeros((n_p, 7), dtype=np.float32)
+            P[:, 6] = 1.0
+            P[:, :3] = (rng.normal(size=(n_p, 3)) * size + ratio * size).astype(np.float32)
+            r = {"kind": "twiss_extreme", "what": "offset", "particles": P.tolist(), "energy": 1e8, "ratio": ratio}
+        rep.fals_cases += 1
+        rep.count("probe:extreme:" + r["what"])
+        rep.case(("twiss_extreme", r["what"], r.get("alpha", r.get("ratio"))), None)
+        try:
+            extreme_case(rep, r)
+        except Exception as ex:  # noqa: BLE001
+            rep.count(f"extreme:rejected:{type(ex).__name__}")
+
+
 def extra_probes(ctx, n: int) -> None:
     import numpy as np
     import elements as E
@@ -119,6 +188,7 @@ def extra_probes(ctx, n: int) -> None:
 
 def run(ctx) -> None:
     extra_probes(ctx, ctx.n(8, 120))
+    extreme_probe(ctx, ctx.n(12, 200))
     run_twiss_correspondence(ctx, "C17", ctx.n(60, 1500))
     run_stats_correspondence(ctx, "C17", ctx.n(60, 1500))
     if F is not None:
@@ -130,6 +200,8 @@ def corpus_case(ctx, r: dict) -> None:
         return grid_case(ctx.report, r)
     if r.get("kind") == "twiss_mutate":
         return mutate_case(ctx.report, r)
+    if r.get("kind") == "twiss_extreme":
+        return extreme_case(ctx.report, r)
     if F is not None and hasattr(F, "corpus_case"):
         F.corpus_case(ctx, r)
 
